@@ -475,6 +475,16 @@ def correspondence(ctx):
     houts = frames.parallel(lambda ch: frames.run_lines(exe_m, ch, timeout=3000)[1], frames.split_chunks(hl, 16))
     if len(houts) != len(hl):
         ctx.violation("decoder budget harness crashed / lost lines on hand-written headers (%d of %d)" % (len(houts), len(hl)), dict(kind="monitor"), no_input=True)
+    # the same headers with ZSTD_d_stableOutBuffer=1: the window limit is a property of the session, not of the buffer mode - a header refused for its window
+    # in buffered mode must be refused in stable-output mode as well (for its window, or earlier because the announced content cannot fit the output buffer)
+    sidx = [k for k, o in enumerate(houts) if "window_too_large" in o][:: (7 if quick else 1)]
+    sl = [hl[k].replace(hl[k].split()[0], hl[k].split()[0] + "S", 1) for k in sidx]
+    souts = frames.parallel(lambda ch: frames.run_lines_exact(exe_m, ch, timeout=3000), frames.split_chunks(sl, 16)) if sl else []
+    for ln, o in zip(sl, souts):
+        ev += 1
+        if "window_too_large" not in o and "dstSize_tooSmall" not in o:
+            ctx.violation("a header beyond the window limit is refused in buffered mode but not with ZSTD_d_stableOutBuffer=1: %s -> %s" % (ln[:120], o[:100]), dict(kind="monitor", op=ln, result=o))
+            break
     rcm, mout, merr = zv.run([zv.driver_exe(), "mem"], "\n".join("dhdr %s %d %d 0" % (ln.split()[2], m[1], m[3]) for ln, m in zip(hl, hmeta)) + "\n", timeout=600)
     hverd = {}
     for ln, o, m, mline in zip(hl, houts, hmeta, mout.split("\n")):
